@@ -100,6 +100,15 @@ class Ctx:
         self.t0 = time.time()
         base = os.environ.get("TMPDIR") or "/var/tmp"
         self.scratch = tempfile.mkdtemp(prefix="pdshverif-%s-" % prop, dir=base)
+        if COV_OUT:
+            # coverage mode: every instrumented process (root or uid 1000, chrooted or not) writes its counters
+            # below GCOV_PREFIX instead of next to the objects (which may be read-only for it)
+            os.umask(0)
+            os.chmod(self.scratch, 0o755)
+            self.gcov_prefix = os.path.join(self.scratch, "gcovp")
+            os.makedirs(self.gcov_prefix, exist_ok=True)
+            os.chmod(self.gcov_prefix, 0o1777)
+            os.environ["GCOV_PREFIX"] = self.gcov_prefix
         self.findings = load_findings()
         self.violations = []      # (signature, what, case)  -- not listed
         self.known_hits = {}      # finding id -> count
@@ -122,6 +131,17 @@ class Ctx:
                 self.log("coverage collection failed:", e)
         shutil.rmtree(self.scratch, ignore_errors=True)
 
+    def _cov_dirs(self, dirs):
+        """coverage mode: libgcov creates missing directories 0755 as whoever runs first; create them 0777 now so
+        that root and uid-1000 processes can both drop their counters (files are 0666 under umask 0)"""
+        for d in dirs:
+            path = self.gcov_prefix
+            for part in d.strip("/").split("/"):
+                path = os.path.join(path, part)
+                if not os.path.isdir(path):
+                    os.mkdir(path)
+                    os.chmod(path, 0o777)
+
     def _collect_coverage(self):
         """coverage mode only: gcov --json-format over every .gcda under the scratch directory, reduced to
         per-function line and branch counts of files that belong to the repository under test."""
@@ -130,8 +150,18 @@ class Ctx:
         gcdas = []
         for root, _, files in os.walk(self.scratch):
             gcdas += [os.path.join(root, f) for f in files if f.endswith(".gcda")]
-        for g in gcdas:
+        work = tempfile.mkdtemp(prefix="gcovw-", dir=self.scratch)
+        for n, g in enumerate(gcdas):
             d = os.path.dirname(g)
+            if "/gcovp/" in g:
+                # written below GCOV_PREFIX (possibly inside a chroot jail): the notes file is where the object was built
+                gcno = "/" + g.split("/gcovp/", 1)[1][:-5] + ".gcno"
+                if not os.path.exists(gcno):
+                    continue
+                d = os.path.join(work, str(n))
+                os.makedirs(d)
+                shutil.copy(g, d)
+                shutil.copy(gcno, d)
             p = run(["gcov", "--json-format", "--branch-probabilities", "--stdout", os.path.basename(g)], cwd=d, timeout=120)
             if p.returncode != 0 or not p.stdout:
                 continue
@@ -141,7 +171,7 @@ class Ctx:
                 except Exception:
                     continue
                 for fobj in j.get("files", []):
-                    fn = fobj.get("file", "")
+                    fn = os.path.normpath(os.path.join(j.get("current_working_directory", ""), fobj.get("file", "")))
                     m = re.search(r"(src/(?:pdsh|common|modules)/[^/]+\.c)$", fn)
                     if not m:
                         continue
@@ -318,6 +348,8 @@ class Ctx:
             # correspondence of this run executes; .gcda files land next to the executable (scratch)
             cmd += ["--coverage", "-fprofile-update=atomic"]
         cmd += list(flags) + list(srcs) + ["-o", out] + list(libs)
+        if COV_OUT:
+            self._cov_dirs([os.path.dirname(os.path.abspath(out))])
         p = run(cmd, timeout=timeout)
         if p.returncode != 0:
             self.broken.append(("C-BROKEN", "harness build " + os.path.basename(out),
@@ -336,10 +368,14 @@ class Ctx:
         mk = "make -j16"
         if COV_OUT:
             mk = "make -j16 CFLAGS='-g -O0 --coverage -fprofile-update=atomic' LDFLAGS=--coverage"
+        if COV_OUT:
+            os.umask(0o022)
         p = run("make clean >/dev/null 2>&1; rm -f src/pdsh/testconfig.c; %s >build.log 2>&1" % mk,
                 cwd=dst, timeout=900)
         if COV_OUT:
-            run("chmod -R a+rwX %s" % dst)     # runs as uid 1000 must be able to write their .gcda
+            os.umask(0)
+            self._cov_dirs(sorted(set(r for r, _, fs in os.walk(dst) if any(f.endswith(".gcno") for f in fs))))
+
         if p.returncode != 0 or not os.path.exists(os.path.join(dst, "src/pdsh/pdsh")):
             self.broken.append(("C-BROKEN", "scratch build of /repo",
                                 open(os.path.join(dst, "build.log"), errors="replace").read()[-2000:]))
